@@ -341,6 +341,10 @@ pub fn c02_case(c: &Case, r: &mut Rng) -> CaseOut {
                 out.tags.push("nondefault-corrections".into());
             }
             // model tie: the whole analysis under the estimator's parameters, byte for byte
+            // the whole public function in the model (its own estimator, no vector from the code)
+            if d.len() <= 20000 {
+                out.requests.push((format!("public {}", hex(d)), format!("ok {} {} {}", x.size, x.corr.len(), fnv64(&x.corr))));
+            }
             // the estimator's vector must lie in the Lean predicate EstimatorRange (hypothesis `hest`
             // of recompress_decompress / verify_same)
             if let Run::Done(Ok(v)) = guarded(|| vh::estimate(d)) {
@@ -376,7 +380,12 @@ pub fn c02_case(c: &Case, r: &mut Rng) -> CaseOut {
             }
             out.sample = Some(format!("{label}: {} size={} plain={} corr={}", wire::short_hex(d), x.size, x.plain.len(), x.corr.len()));
         }
-        (Outcome::Err(_), Outcome::Err(_)) => {}
+        (Outcome::Err(_), Outcome::Err(_)) => {
+            // rejected by the code: the model of the whole public function must reject it too
+            if d.len() <= 20000 {
+                out.requests.push((format!("public {}", hex(d)), "err".into()));
+            }
+        }
         (Outcome::Panic(_), _) | (_, Outcome::Panic(_)) => {}
         (x, y) => {
             out.failures.push(fail(
@@ -468,6 +477,226 @@ fn vec_str(v: &[u32]) -> String {
     v.iter().map(|x| x.to_string()).collect::<Vec<_>>().join(" ")
 }
 
+/// directed streams for the decision boundaries of the parameter estimator (property EST):
+///  * chain depth of the chosen candidate at and around every `max_chain` row of the two level
+///    tables (k earlier occurrences of a marker, a reference to the oldest), under "add all"
+///    (slow table, lazy levels) and under a first-only policy (fast table), with 3- and 4-byte
+///    minimum match length (the two candidate sets)
+///  * the longest distance exactly at / around `window - MIN_LOOKAHEAD` at hop 0 and at a later hop
+///    (very_far_matches_detected), for every window size
+///  * a length-3 match at distance 4095 / 4096 / 4097 under "add all" (zlib_compatible)
+///  * a match to the very first byte (matches_to_start_detected)
+pub fn est_directed_streams(r: &mut Rng) -> Vec<(Vec<u8>, String)> {
+    use crate::gen::*;
+    struct B {
+        p: Vec<u8>,
+        t: Vec<Tk>,
+    }
+    impl B {
+        fn lit(&mut self, b: u8) {
+            self.p.push(b);
+            self.t.push(Tk::Lit(b));
+        }
+        fn lits(&mut self, bs: &[u8]) {
+            for &b in bs {
+                self.lit(b);
+            }
+        }
+        /// filler that never contains the marker bytes 1..=4
+        fn filler(&mut self, r: &mut Rng, n: usize) {
+            for _ in 0..n {
+                let b = 5 + r.below(250) as u8;
+                self.lit(b);
+            }
+        }
+        fn reference(&mut self, len: usize, dist: usize) {
+            let st = self.p.len() - dist;
+            for i in 0..len {
+                let b = self.p[st + i];
+                self.p.push(b);
+            }
+            self.t.push(Tk::Ref { len: len as u32, dist: dist as u32, irregular: false });
+        }
+        /// a 258-byte match and a reference into its interior: the add-policy estimator answers
+        /// "add all substrings" (the slow, lazy level table)
+        fn force_add_all(&mut self, r: &mut Rng, len: usize) {
+            self.filler(r, 300);
+            self.reference(258, 280);
+            self.filler(r, 40);
+            let target = self.p.len() - 40 - 258 + 100;
+            let d = self.p.len() - target;
+            self.reference(len, d);
+            self.filler(r, 20);
+        }
+    }
+    let mut out = Vec::new();
+    let finish = |r: &mut Rng, mut b: B, label: String, out: &mut Vec<(Vec<u8>, String)>| {
+        b.filler(r, 20);
+        let dynamic = r.chance(1, 3);
+        out.push((encode_tokens(r, &b.t, dynamic), label));
+    };
+    // chain depths around the table rows
+    let rows: [usize; 9] = [4, 8, 16, 32, 128, 256, 1024, 4096, 2];
+    for &row in &rows {
+        for delta in [-1i64, 0, 1, 2] {
+            let k = (row as i64 + delta).max(1) as usize;
+            for add_all in [false, true] {
+                for len in [3usize, 4] {
+                    let mut b = B { p: Vec::new(), t: Vec::new() };
+                    b.filler(r, 10);
+                    if add_all {
+                        b.force_add_all(r, len);
+                    }
+                    let marker: Vec<u8> = vec![1, 2, 3, 4][..len].to_vec();
+                    // k occurrences; spacing chosen so that the oldest stays inside the window
+                    let gap = if k > 3000 { 3 } else if k > 1000 { 8 + r.below(8) as usize } else { 8 + r.below(40) as usize };
+                    let first = b.p.len();
+                    for _ in 0..k {
+                        b.lits(&marker);
+                        b.filler(r, gap);
+                    }
+                    let dist = b.p.len() - first;
+                    if dist > 32768 {
+                        continue;
+                    }
+                    b.reference(len, dist);
+                    finish(r, b, format!("directed depth k={k} add_all={add_all} len={len}"), &mut out);
+                }
+            }
+        }
+    }
+    // longest distance at the very-far threshold of each window size, at hop 0 and at hop 1
+    for wbits in 9..=15usize {
+        let w = 1usize << wbits;
+        for delta in [-1i64, 0, 1] {
+            for hop in [0usize, 1] {
+                for len in [3usize, 4] {
+                    let dist = (w as i64 - 262 + delta) as usize;
+                    let mut b = B { p: Vec::new(), t: Vec::new() };
+                    b.filler(r, 7);
+                    let marker: Vec<u8> = vec![1, 2, 3, 4][..len].to_vec();
+                    let first = b.p.len();
+                    b.lits(&marker);
+                    // `hop` further occurrences in between
+                    let mid = dist / 2;
+                    b.filler(r, mid - len);
+                    if hop == 1 {
+                        b.lits(&marker);
+                    } else {
+                        b.filler(r, len);
+                    }
+                    let have = b.p.len() - first;
+                    b.filler(r, dist - have);
+                    b.reference(len, dist);
+                    finish(r, b, format!("directed far wbits={wbits} dist={dist} hop={hop} len={len}"), &mut out);
+                }
+            }
+        }
+    }
+    // wbits 15: distances up to 32768 (beyond window - MIN_LOOKAHEAD)
+    for dist in [32505usize, 32506, 32507, 32767, 32768] {
+        for hop in [0usize, 1] {
+            let mut b = B { p: Vec::new(), t: Vec::new() };
+            b.filler(r, 9);
+            let first = b.p.len();
+            b.lits(&[1, 2, 3]);
+            b.filler(r, 1000);
+            if hop == 1 {
+                b.lits(&[1, 2, 3]);
+            }
+            let have = b.p.len() - first;
+            b.filler(r, dist - have);
+            b.reference(3, dist);
+            finish(r, b, format!("directed far15 dist={dist} hop={hop}"), &mut out);
+        }
+    }
+    // length-3 match at distance 4095..4097 under add-all / not
+    for dist in [4095usize, 4096, 4097] {
+        for add_all in [false, true] {
+            let mut b = B { p: Vec::new(), t: Vec::new() };
+            b.filler(r, 10);
+            if add_all {
+                b.force_add_all(r, 3);
+            }
+            let first = b.p.len();
+            b.lits(&[1, 2, 3]);
+            b.filler(r, dist - 3);
+            assert_eq!(b.p.len() - first, dist);
+            b.reference(3, dist);
+            finish(r, b, format!("directed len3 dist={dist} add_all={add_all}"), &mut out);
+        }
+    }
+    // match to the first byte of the stream, alone and with other matches
+    for len in [3usize, 4, 20] {
+        for extra in [false, true] {
+            let mut b = B { p: Vec::new(), t: Vec::new() };
+            b.lits(&[1, 2, 3, 4]);
+            let nfill = 30 + r.below(600) as usize;
+            b.filler(r, nfill);
+            if extra {
+                b.reference(len.max(4), 17);
+                b.filler(r, 5);
+            }
+            let d = b.p.len();
+            b.reference(len.min(4), d);
+            finish(r, b, format!("directed to-start len={len} extra={extra}"), &mut out);
+        }
+    }
+    out
+}
+
+/// estimator correspondence only (property EST): one `estimatefull` request per parseable stream,
+/// expected answer = the hook's complete vector or its outcome class
+pub fn est_case(d: &[u8], label: &str, max_len: usize) -> CaseOut {
+    let mut out = CaseOut::default();
+    match guarded(|| vh::parse(d)) {
+        Run::Done(Ok(_)) => {}
+        Run::Done(Err(e)) => {
+            out.tags.push("unparseable".into());
+            out.tags.push(format!("unparseable: {} [{}]", e.chars().take(50).collect::<String>(), label.split(' ').next().unwrap_or("")));
+            return out;
+        }
+        Run::Panic(_) => {
+            out.tags.push("unparseable".into());
+            out.tags.push("parse-panic".into());
+            return out;
+        }
+    }
+    let expected = match guarded(|| vh::estimate(d)) {
+        Run::Done(Ok(v)) => {
+            out.tags.push("estimate-ok".into());
+            out.tags.push(format!("alg{} pol{} lazy{}", v[4], v[16], v[18]));
+            if v[4] != 0 {
+                out.nontrivial = Some(fnv64(d));
+            }
+            if out.sample.is_none() {
+                out.sample = Some(format!("{label}: params={v:?}"));
+            }
+            format!("ok {}", vec_str(&v))
+        }
+        Run::Done(Err(_)) => {
+            out.tags.push("estimate-err".into());
+            "err".to_string()
+        }
+        Run::Panic(p) => {
+            out.tags.push("estimate-panic".into());
+            out.failures.push(Failure {
+                kind: "oracle".into(),
+                signature: format!("panic {}", panic_signature(&p)),
+                detail: format!("estimator panicked: {p} [{label}]"),
+                replay: format!("estimatefull {}", hex(d)),
+            });
+            "panic".to_string()
+        }
+    };
+    if d.len() <= max_len {
+        out.requests.push((format!("estimatefull {}", hex(d)), expected));
+    } else {
+        out.tags.push("too-long-for-model".into());
+    }
+    out
+}
+
 pub fn c08_case(c: &Case, r: &mut Rng, nperturb: usize, max_limit: u32) -> CaseOut {
     let d = &c.s.bytes;
     let label = &c.s.label;
@@ -477,7 +706,18 @@ pub fn c08_case(c: &Case, r: &mut Rng, nperturb: usize, max_limit: u32) -> CaseO
         out.tags.push("unparseable".into());
         return out;
     }
-    let est = match guarded(|| vh::estimate(d)) {
+    let est_run = guarded(|| vh::estimate(d));
+    // the COMPLETE estimator (candidate hash tables, chain depths, level tables) against the model:
+    // all 19 fields of the hook's vector, or the outcome class when there is no vector
+    if d.len() <= 20000 {
+        let expected = match &est_run {
+            Run::Done(Ok(v)) => format!("ok {}", vec_str(v)),
+            Run::Done(Err(_)) => "err".to_string(),
+            Run::Panic(_) => "panic".to_string(),
+        };
+        out.requests.push((format!("estimatefull {}", hex(d)), expected));
+    }
+    let est = match est_run {
         Run::Done(Ok(v)) => {
             out.tags.push("estimate-ok".into());
             Some(v)
